@@ -237,7 +237,7 @@ Definition always_derivable_names : list string :=
 
 (* traits every type typify can mention implements (std / serde / chrono / uuid /
    serde_json types, generated types by C19_surface_base; replacement types are the
-   user's responsibility) *)
+   user's responsibility) - EXCEPT over-long arrays / tuples, see [gap_inside] *)
 Definition always_derivable (x : ustring) : bool := mem_ustr x (map u always_derivable_names).
 
 Inductive strait := SCopy | SPartialEq | SEq | SPartialOrd | SOrd | SHash.
@@ -326,6 +326,28 @@ Fixpoint float_inside (T : space) (fuel : nat) (i : id) : bool :=
       end
   end.
 
+(* Aggregates without the impls a derive needs (std / serde implement traits for tuples and
+   arrays only up to a size): serde's Serialize / Deserialize stop at arrays of 32 and tuples of 16;
+   std's Debug / Clone / PartialEq .. stop at tuples of 12 (arrays are const-generic there).
+   [gap_inside serde T fuel i]: such an aggregate is reachable from the field type i without
+   crossing a named type. *)
+Definition is_serde_trait (x : ustring) : bool :=
+  mem_ustr x [u "::serde::Serialize"; u "::serde::Deserialize"].
+
+Fixpoint gap_inside (serde : bool) (T : space) (fuel : nat) (i : id) : bool :=
+  match fuel with
+  | O => false
+  | S f =>
+      match get_det T i with
+      | Some (DArray t n) => (serde && N.ltb 32 n) || gap_inside serde T f t
+      | Some (DTuple ts) =>
+          Nat.ltb (if serde then 16 else 12) (length ts) || existsb (gap_inside serde T f) ts
+      | Some (DOption t) | Some (DBox t) | Some (DVec t) | Some (DSet t) => gap_inside serde T f t
+      | Some (DMap k v) => gap_inside serde T f k || gap_inside serde T f v
+      | _ => false
+      end
+  end.
+
 (* by-value field types of the emitted item *)
 Definition contents (d : details) : list id :=
   match d with
@@ -346,7 +368,8 @@ Definition derivable_entry (x : ustring) (T : space) (fuel : nat) (e : entry) : 
   | None => false
   | Some _ =>
       subset (supertraits x) (derives_of T e) &&
-      (if always_derivable x then true
+      (if always_derivable x
+       then forallb (fun i => negb (gap_inside (is_serde_trait x) T fuel i)) (contents (e_det e))
        else match strait_of x with
             | Some s => forallb (has_trait s T fuel) (contents (e_det e))
             | None => false
